@@ -121,7 +121,9 @@ func (r *Run) runDefers(fr *Frame, st *State) []Outcome {
 		d := fr.defers[k]
 		var next []Outcome
 		for _, o := range cur {
+			r.inDefer++
 			outs := r.invoke(fr, o.st, d.call, &d.call.Call, d.fnv, d.args)
+			r.inDefer--
 			next = append(next, outs...)
 		}
 		cur = next
